@@ -106,6 +106,7 @@ struct Stats {
 	std::vector<V> viols;
 	std::vector<std::string> notes;
 	std::map<std::string, std::string> info; // name -> json
+	std::string raw;						 // protocol lines produced elsewhere (isolated children), passed through
 	bool exhaustive = true;
 	size_t max_samples = 6;
 	size_t max_viols_per_key = 3;
@@ -133,6 +134,8 @@ struct Stats {
 		for (auto& n : notes) fprintf(f, "N\t%s\n", tab_safe(n).c_str());
 		for (auto& kv : info) fprintf(f, "I\t%s\t%s\n", kv.first.c_str(), kv.second.c_str());
 		if (!exhaustive) fprintf(f, "X\t0\n");
+		if (!raw.empty()) fwrite(raw.data(), 1, raw.size(), f);
+		raw.clear();
 		fflush(f);
 		cnt.clear(); mx.clear(); sets.clear(); samples.clear(); viols.clear(); notes.clear(); info.clear();
 	}
